@@ -21,12 +21,13 @@ use uuid::Uuid;
 
 const G: u64 = 1_000_000_000;
 
-const SCENARIOS: [&str; 11] = [
+const SCENARIOS: [&str; 12] = [
 	"send",
 	"receive",
 	"invoice-payer",
 	"invoice-issuer",
 	"late-lock",
+	"send-lock-with-reply",
 	"cancel",
 	"refresh-confirm",
 	"scan-repair",
@@ -114,6 +115,14 @@ fn ops(w: &World, scen: &str, prep: &Value, ids: &mut Vec<Uuid>) -> Result<(), c
 			ids.push(s1.id);
 			a.lock(&s1)?;
 			let s2 = b.receive(&s1, None)?;
+			a.finalize(&s2)?;
+		}
+		"send-lock-with-reply" => {
+			// the order of the synchronous send: the outputs are reserved when the reply is in, with the reply
+			let s1 = a.init_send(default_args(6 * G))?;
+			ids.push(s1.id);
+			let s2 = b.receive(&s1, None)?;
+			a.lock(&s2)?;
 			a.finalize(&s2)?;
 		}
 		"receive" => {
